@@ -466,13 +466,17 @@ CATALOGUE = requests_catalogue()
 #   "v1fault": a manager in legacy (v1) protocol mode; the link fails (write error) at the second exchange after serving starts
 #   "fatal":   the device answers the sign command with a status the manager treats as fatal (reply -906, then shutdown):
 #              clients accepted afterwards are not served; nothing else may talk to the device meanwhile
-MODES = {11: "faulty", 12: "faulty", 13: "hb", 14: "v1fault", 15: "fatal", 16: "fatal"}
+#   "tcpslow": the TCP dongle class over a byte-stream transport; the device is slow with one answer.  A blocking read waits;
+#              should the code give the socket a time-out, the late answer stays in the stream - reading it as the answer to
+#              another APDU is counted (world.misrouted) and fails the run
+MODES = {11: "faulty", 12: "faulty", 13: "hb", 14: "v1fault", 15: "fatal", 16: "fatal", 17: "tcpslow"}
 PAIRS = [(0, 1), (0, 2), (2, 1), (3, 0), (0, 5), (4, 3)]
 TRIPLES = [(0, 1, 2), (3, 0, 4), (0, 5, 2)]
 SETS = PAIRS + TRIPLES + [(0, 1, 2, 3), (2, 5, 4, 0)]                    # 2, 3 and 4 clients
 SETS = SETS + [(1, 6, 1), (6, 1, 4, 1)]      # ("faulty") a state query before and after a two-block advance the device abandons half way
 SETS = SETS + [(7, 1, 4), (8, 9, 8)]         # ("hb") uiHeartbeat | state | getPubKey ; ("v1fault") v1: sign | getPubKey | sign
 SETS = SETS + [(5, 1), (1, 5, 4)]            # ("fatal") hash sign (fatal) | state [| getPubKey]
+SETS = SETS + [(5, 4, 1)]                    # ("tcpslow") hash sign | getPubKey | state on the TCP dongle
 if os.environ.get("VERIF_TIER") == "thorough":
     SETS = SETS + [(2, 0, 3), (1, 2, 5), (0, 0, 1), (0, 0, 0, 0), (3, 2, 1, 0), (0, 1, 2, 3, 4), (0, 1, 2, 3, 4, 5)]    # (equal requests too), 5 and 6 clients
 
@@ -530,6 +534,62 @@ class StatefulDevice(SimDevice):
         return SimDevice.handle(self, apdu)
 
 
+class _Sock:
+    """The socket of a byte-stream transport: blocking unless the code under test gives it a time-out."""
+    def __init__(self):
+        self.timeout = None
+
+    def settimeout(self, t):
+        self.timeout = t
+
+    def gettimeout(self):
+        return self.timeout
+
+
+class StreamTransport:
+    """What ledgerblue's TCP getDongle() returns, as a BYTE STREAM: the device's answers queue up in the stream and the host reads
+    the one at the front.  An answer the device is slow with makes a read that has a time-out fail (TimeoutError) - and stays in
+    the stream; a blocking read just waits for it.  `world.misrouted` counts reads that got an answer belonging to another APDU."""
+    def __init__(self, world):
+        self.world = world
+        self.opened = True
+        self.socket = _Sock()
+        self.stream = []
+        world.log.append(("open",))
+
+    def exchange(self, apdu, timeout=20000):
+        w = self.world
+        k = w.exchanges
+        w.exchanges += 1
+        w.log.append(("apdu", apdu))
+        if w.fault_hook is not None:
+            w.fault_hook(k, apdu)
+        token = object()
+        try:
+            outcome = ("ok", w.device.handle(apdu), token)
+        except BaseException as e:
+            if type(e).__name__ == "_Abort":
+                raise
+            outcome = ("raise", e, token)
+        self.stream.append(outcome)
+        if w.slow is not None and w.slow(k) and self.socket.timeout is not None:
+            raise TimeoutError("timed out")          # the answer arrives later: it is still in the stream
+        got = self.stream.pop(0)
+        if got[2] is not token:
+            w.misrouted += 1
+        if got[0] == "raise":
+            raise got[1]
+        return got[1]
+
+    def close(self):
+        self.world.log.append(("close",))
+        self.opened = False
+        self.stream = []
+
+
+SLOW_AT = 1       # "tcpslow": index (after the bring-up) of the exchange whose answer the device is slow with
+
+
 def device(mode=""):
     d = StatefulDevice(fail_block=1 if mode == "faulty" else None)
     if mode == "hb":
@@ -545,12 +605,17 @@ def device(mode=""):
 # ---- recording what the transport did, and replaying one request's block in isolation
 
 class _Recorder:
-    """Wraps sim.base.Transport.exchange for the duration of a run: per world, the outcome (answer or exception) of every exchange."""
+    """Wraps the transports' exchange for the duration of a run: per world, the outcome (answer or exception) of every exchange."""
     def __enter__(self):
         import sim.base as sb
-        self.orig = sb.Transport.exchange
-        orig = self.orig
+        self.classes = [sb.Transport, StreamTransport]
+        self.orig = [c.exchange for c in self.classes]
+        for cls, orig in zip(self.classes, self.orig):
+            cls.exchange = self.wrap(orig)
+        return self
 
+    @staticmethod
+    def wrap(orig):
         def exchange(tr, apdu, timeout=20000):
             w = tr.world
             if not hasattr(w, "outcomes"):
@@ -563,16 +628,19 @@ class _Recorder:
                 raise
             w.outcomes.append(("ok", r))
             return r
-        sb.Transport.exchange = exchange
-        return self
+        return exchange
 
     def __exit__(self, *a):
-        import sim.base as sb
-        sb.Transport.exchange = self.orig
+        for cls, orig in zip(self.classes, self.orig):
+            cls.exchange = orig
         return False
 
 
 class _Mismatch(Exception):
+    pass
+
+
+class _Misrouted(Exception):
     pass
 
 
@@ -605,14 +673,14 @@ def serve_one(proto, req):
     return real_json.dumps(r, sort_keys=True).encode() + b"\n", False
 
 
-def isolated(req, block, reply, v1=False):
+def isolated(req, block, reply, v1=False, platform="ledger"):
     """The request served by a FRESH manager against a device that replays the recorded block: does the fresh manager send
     the same APDUs (and reconnect in the same places), and does it build the same reply?  If not, the long-running manager's
     reply / exchanges depended on something other than this request and the device's answers to it."""
     events, outcomes = block
     exch = [(bytes(e[1]), o) for e, o in zip([e for e in events if e[0] == "apdu"], outcomes)]
     dev = ReplayDevice(exch)
-    proto, dongle, world = make_stack(dev, connect=True, v1=v1)
+    proto, dongle, world = make_stack(dev, connect=True, v1=v1, platform=platform)
     # a block that starts with the closing of the link is that of a manager with a reconnection pending (earlier link failure)
     (proto.protocol_v2 if v1 else proto)._comm_issue = bool(events) and events[0][0] == "close"
     n0 = len(world.log)
@@ -653,6 +721,17 @@ def _wait_for_strays():
     return seen
 
 
+def _stack(mode):
+    platform = "tcp" if mode == "tcpslow" else "ledger"
+    proto, dongle, world = make_stack(device(mode), connect=False, v1=mode == "v1fault", platform=platform)
+    world.misrouted = 0
+    world.slow = None
+    if mode == "tcpslow":
+        import ledger.hsm2dongle_tcp as ht
+        ht.getDongle = lambda *a, **k: StreamTransport(world)
+    return proto, dongle, world
+
+
 def sequential(order, reqs, mode=""):
     """The requests served one after the other by one fresh manager: ({i: apdu list}, {i: reply bytes}, isolation verdict).
     The isolation verdict says whether, in this sequential run,
@@ -661,10 +740,12 @@ def sequential(order, reqs, mode=""):
         exchanges and the same reply,
       - a request's block starts with the re-opening of the link only if the previous request was answered with the device-error
         code (i.e. only the documented repair after a reported link failure, never another request's unfinished business)."""
-    proto, dongle, world = make_stack(device(mode), connect=False, v1=mode == "v1fault")
+    proto, dongle, world = _stack(mode)
     proto.initialize_device()
     world.outcomes = []
     base = world.exchanges
+    if mode == "tcpslow":
+        world.slow = lambda k: k - base == SLOW_AT
     me = threading.get_ident()
     stray = []
 
@@ -700,13 +781,17 @@ def sequential(order, reqs, mode=""):
     if stray:
         note("device exchanges made by a thread other than the serving one", stray[:5])
         ok = False
-    ok = ok and all(isolated(reqs[i], blocks[i], replies[i], v1=mode == "v1fault") for i in served)
+    if world.misrouted:
+        note("the host read answers that belong to other exchanges", world.misrouted)
+        ok = False
+    ok = ok and all(isolated(reqs[i], blocks[i], replies[i], v1=mode == "v1fault", platform="tcp" if mode == "tcpslow" else "ledger")
+                    for i in served)
     return apdus, replies, ok
 
 
 def serve_concurrently(reqs, choices, mode=""):
     """Real TCPServer.run with all clients waiting.  Returns (device apdu log after bring-up, bytes received per client, sched)."""
-    proto, dongle, world = make_stack(device(mode), connect=False, v1=mode == "v1fault")
+    proto, dongle, world = _stack(mode)
     sched = Sched(choices)
     install_conditions(sched)
     net = Net(sched, [line_of(r) for r in reqs])
@@ -724,6 +809,8 @@ def serve_concurrently(reqs, choices, mode=""):
     def on_register():
         mark["n"] = len(world.apdus())       # everything before this point is the bring-up
         base["k"] = world.exchanges
+        if mode == "tcpslow":
+            world.slow = lambda k: k - base["k"] == SLOW_AT
     socketserver._ServerSelector = selector_class(net, on_register)
     socketserver.os = OsModule()
     srv = server.TCPServer("127.0.0.1", 9999, proto)
@@ -737,6 +824,9 @@ def serve_concurrently(reqs, choices, mode=""):
         socketserver.socket, socketserver._ServerSelector, socketserver.os = saved
     if mark["n"] is None:
         raise Inconclusive("the server never started serving")
+    if world.misrouted:
+        note("the host read answers that belong to other exchanges", world.misrouted)
+        raise _Misrouted()
     return [bytes(a) for a in world.apdus()[mark["n"]:]], net, sched
 
 
@@ -785,6 +875,8 @@ def _run(reqs, choices, mode):
         log, net, sched = serve_concurrently(reqs, choices, mode)
     except Inconclusive:
         raise
+    except _Misrouted:
+        return False
     except Exception as e:
         reraise_control_flow(e)
         import traceback
